@@ -96,4 +96,25 @@ LEMMAS = [
         ensures={"mod": "(m * Q + r) % Q == r", "div": "(m * Q + r) // Q == m"},
         proof="pass",
     ),
+    dict(
+        name="ssum_zero_iff",       # a sum of non-negative entries is 0 exactly when every entry is 0 (and it is never negative)
+        params={"a": "arr", "d": "int", "lo": "int", "hi": "int"},
+        requires={"non-negative": "forall(lambda q: a[q] + d >= 0, lo, hi)"},
+        ensures={"non-negative": "rsum(a, d, lo, hi) >= 0",
+                 "zero-iff": "(rsum(a, d, lo, hi) == 0) == forall(lambda q: a[q] + d == 0, lo, hi)"},
+        proof="h = lo\nwhile h < hi:\n    h += 1",
+        loops={1: dict(invariant={"range": "lo <= h and (h <= hi or hi < lo)", "non-negative": "rsum(a, d, lo, h) >= 0",
+                                  "zero-iff": "(rsum(a, d, lo, h) == 0) == forall(lambda q: a[q] + d == 0, lo, h)"}, variant="hi - h")},
+    ),
+    dict(
+        name="ssum_mono_eq",        # point-wise <= gives sum <=, and equal sums then force point-wise equality
+        params={"a": "arr", "d": "int", "a2": "arr", "d2": "int", "lo": "int", "hi": "int"},
+        requires={"pointwise-le": "forall(lambda q: a[q] + d <= a2[q] + d2, lo, hi)"},
+        ensures={"sum-le": "rsum(a, d, lo, hi) <= rsum(a2, d2, lo, hi)",
+                 "equal-sums-equal-entries": "implies(rsum(a, d, lo, hi) == rsum(a2, d2, lo, hi), forall(lambda q: a[q] + d == a2[q] + d2, lo, hi))"},
+        proof="h = lo\nwhile h < hi:\n    h += 1",
+        loops={1: dict(invariant={"range": "lo <= h and (h <= hi or hi < lo)", "sum-le": "rsum(a, d, lo, h) <= rsum(a2, d2, lo, h)",
+                                  "equal": "implies(rsum(a, d, lo, h) == rsum(a2, d2, lo, h), forall(lambda q: a[q] + d == a2[q] + d2, lo, h))"},
+                       variant="hi - h")},
+    ),
 ]
